@@ -339,6 +339,9 @@ def run(rep, info, model, tier, seed):
         else:
             mreq.append([31, b"", 0, []])
     mres = model.run(mreq) if model is not None else None
+    # the whole attempt in the model (run_via_proxy, the subject of C19_request_only_over_tunnel): its events and whether the
+    # upgrade request is written
+    mruns = model.run([[33, r[1]] for r in mreq[0::2]]) if model is not None else None
     rep.watch_extraction(model, mreq)
     dis = 0
     localised = 0
@@ -374,7 +377,14 @@ def run(rep, info, model, tier, seed):
             names = [e[0] for e in events]
             impl_out = 0 if "connected" in names else (2 if "blocked" in names else 1)
             sends = [o[1] for o in ops if o[0] == "send"]
-            if m_out != impl_out or (sends and sends[0] != mres[2 * i + 1]):
+            # run_via_proxy: Connecting, then Connected (and the request written) / ConnectFail / still waiting
+            mtr = mruns[i]
+            m_events = [it[1][0] for it in mtr if it[0] == 0]
+            m_request = any(it[0] == 3 for it in mtr)
+            code = {"connecting": 0, "connect_fail": 1, "connected": 2}
+            i_events = [code[n] for n in names if n in code]
+            i_request = len(sends) > 1 and sends[1].startswith(b"GET ")
+            if m_out != impl_out or (sends and sends[0] != mres[2 * i + 1]) or m_events != i_events or m_request != i_request:
                 dis += 1
                 if dis == 1:
                     first = (sc["url"], sc["proxies"], sc["proxy_script"][:5], m_out, impl_out, sends[:1], mres[2 * i + 1])
